@@ -12,7 +12,8 @@ LEVEL = "other"
 MODULE = "PropC03"
 THEOREMS = ["C03_new_frame_is_fresh", "C03_new_closure_touches_nothing", "C03_assign_writes_one_slot",
             "C03_pure_builtin_depends_on_argument_only", "C03_compiled_builtin_call_anywhere",
-            "C03_compiled_builtin_call_any_history"]
+            "C03_compiled_builtin_call_any_history", "C03_user_function_result", "C03_compiled_user_call_anywhere",
+            "C03_compiled_user_call_any_history"]
 
 LETTERS = "abcdefghijklmnopqrstuvwxyz"
 
